@@ -651,11 +651,13 @@ func ioLines(L *LState) int {
 	return 1
 }
 
-var ioOpenOpions = []string{"r", "rb", "w", "wb", "a", "ab", "r+", "rb+", "w+", "wb+", "a+", "ab+"}
+var ioOpenOpions = []string{"r", "rb", "w", "wb", "a", "ab", "r+", "rb+", "r+b", "w+", "wb+", "w+b", "a+", "ab+", "a+b"}
 
 func ioOpenFile(L *LState) int {
 	path := L.CheckString(1)
-	if L.GetTop() == 1 {
+	if L.Get(2) == LNil {
+		// no mode, or nil: the default
+		L.SetTop(1)
 		L.Push(LString("r"))
 	}
 	mode := os.O_RDONLY
@@ -672,11 +674,11 @@ func ioOpenFile(L *LState) int {
 	case "a", "ab":
 		mode = os.O_WRONLY | os.O_APPEND | os.O_CREATE
 		readable = false
-	case "r+", "rb+":
+	case "r+", "rb+", "r+b":
 		mode = os.O_RDWR
-	case "w+", "wb+":
+	case "w+", "wb+", "w+b":
 		mode = os.O_RDWR | os.O_TRUNC | os.O_CREATE
-	case "a+", "ab+":
+	case "a+", "ab+", "a+b":
 		mode = os.O_APPEND | os.O_RDWR | os.O_CREATE
 	}
 	file, err := newFile(L, nil, path, mode, os.FileMode(perm), writable, readable)
